@@ -150,12 +150,21 @@ class Runtime:
         def is_vsx():
             return False
 
+        def set_range_cap(k):
+            pass
+
+        def load_class(module, qualname):
+            o = importlib.import_module(module)
+            for part in qualname.split("."):
+                o = getattr(o, part)
+            return o
+
         def forked(fn, *args, **kw):
             return fn(*args, **kw)
 
         return dict(sym_int=sym_int, sym_bool=sym_bool, sym_bytes=sym_bytes, sym_str=sym_str, assume=assume,
                     check=check, reach=reach, observe=observe, fork=fork, cp1252_enc=cp1252_enc, cp1252_dec=cp1252_dec,
-                    cp1252_ok=cp1252_ok, str_of=str_of, cps_of=cps_of, tdiv=tdiv, exc_name=exc_name, is_vsx=is_vsx, forked=forked)
+                    cp1252_ok=cp1252_ok, str_of=str_of, cps_of=cps_of, tdiv=tdiv, exc_name=exc_name, is_vsx=is_vsx, forked=forked, load_class=load_class, set_range_cap=set_range_cap)
 
     def patch_random(self):
         import random
